@@ -445,6 +445,26 @@ func c17Contexts() []c17Ctx {
 		}
 		res = append(res, c17Ctx{name: x.name + " between script and texts", x: x.mk, before: script, after: texts})
 	}
+	// a script whose own label is spelled like another script's name / one of
+	// that script's generated sub-labels: the other script's presence or
+	// position does not change how it compiles
+	shop := func(a *AtomTable) string {
+		c := func() string { return ph(a, ClsPlainCmd, "cmd", "").Placeholder() }
+		f := func() string { return "flag(" + ph(a, ClsIdent, "flag", "").Placeholder() + ")" }
+		return "script Shop {\n" + c() + "\nif (" + f() + ") {\n" + c() + "\n}\nwhile (" + f() + ") {\n" + c() + "\n}\n}"
+	}
+	for _, lbl := range []string{"Shop_1", "Shop_2", "Shop_3", "Shop"} {
+		lbl := lbl
+		mk := func(a *AtomTable) (string, func() interp.Value) {
+			s := ph(a, ClsUserName, "script", "names")
+			c := func() string { return ph(a, ClsPlainCmd, "cmd", "").Placeholder() }
+			return "script " + s.Placeholder() + " {\n" + c() + "\n" + lbl + ":\n" + c() + "\n}", func() interp.Value { return s.Val }
+		}
+		if lbl != "Shop" {
+			res = append(res, c17Ctx{name: "script-with-label-" + lbl + " after script Shop", x: mk, before: shop})
+		}
+		res = append(res, c17Ctx{name: "script-with-label-" + lbl + " before script Shop", x: mk, after: shop})
+	}
 	return res
 }
 
